@@ -52,6 +52,12 @@ CLAIMS = {
          "pointer identity of `&*x` / `&mut *x` against every field's storage (or referent), fields changed after a write.",
          COMMON_NOTE + "the model returns the designated field index; that a reference-typed field yields its referent is Rust's deref coercion (observed, not modelled); Target type agreement across variants is rustc's check.",
          "Lean 4 theorem + differential correspondence by pointer identity"),
+ "C10": ("Theorems into_correct (for every generated impl and value, x.into() is the field designated for T — sole field, else marked, else "
+         "unique same-typed — through the marker's method / unchanged when already T / Into<T> otherwise), select_ok_iff / select_error_iff "
+         "(the two selection loops = the designation function, refused exactly when not unique), items_targets (one impl per requested "
+         "target, no other). Tie: real macro + rustc with source/target types whose conversions are pairwise distinguishable.",
+         COMMON_NOTE + "types are compared by normalised token string as the code does (opaque ids in the model); the iteration order of the target map is an input of the model here and the subject of C16.",
+         "Lean 4 theorem + differential correspondence on returned values"),
 }
 
 ENGINES = [
